@@ -106,7 +106,6 @@ class Bip44PublicKey:
         """
         return self.m_pub_key.RawUncompressed()
 
-    @lru_cache()
     def ToAddress(self) -> str:
         """
         Return the address correspondent to the public key.
